@@ -116,7 +116,10 @@ fn claims_for(r: &mut Rng, same: bool, thread: u32, i: u64) -> Value {
     let mut v = json!({
         "iss": "https://issuer.example/A", "exp": 4_000_000_000u64,
         "name": "Erika Mustermann", "address": {"street": "Heidestr. 17", "city": "Köln", "geo": {"lat": 50.9, "lon": 6.9}},
-        "nationalities": ["DE", "FR", ["x", "y"]], "items": [{"a": 1}, {"b": [1, 2]}], "flag": true, "none": null
+        "nationalities": ["DE", "FR", ["x", "y"]], "items": [{"a": 1}, {"b": [1, 2]}], "flag": true, "none": null,
+        // names that read like paths of other claims: every disclosure still needs its own salt
+        "address.street": "x", "address.geo.lat": 1, "nationalities[1]": "FR", "items[0].a": 1, "items[1]": {"b": [1, 2]},
+        "nationalities[2][0]": "x", "$.name": "Erika Mustermann", "": {"": ""}, "twins": ["same", "same", {"a": 1}, {"a": 1}]
     });
     if !same {
         v["thread"] = json!(thread);
